@@ -46,6 +46,7 @@ type Check struct {
 	Trusted     []string
 	Extra       map[string]interface{}
 	Broken      []string // checker-health problems (exit 2)
+	usedTypes   map[string]bool
 }
 
 func NewCheck(prop, tier string) *Check {
